@@ -526,9 +526,10 @@ impl Generator {
                 ops.push(gen_op(rng, info, kind));
             }
         }
-        // occasionally a pure writer at the end (byte-identity across the fresh reference)
-        if rng.pct(10) {
-            let k = *rng.pick(&["Subset", "Instance", "WholeFont"]);
+        // occasionally a pure operation at the end (byte-identity across the fresh reference
+        // and across repetitions on fresh threads)
+        if rng.pct(15) {
+            let k = *rng.pick(&["Subset", "Instance", "WholeFont", "PrinceSubset", "Load", "Load"]);
             ops.push(gen_op(rng, info, k));
         }
         t.ops = ops;
